@@ -120,25 +120,45 @@ func (g *vcgen) woldVar(m *Monitor) string {
 	return name
 }
 
-// pathOf walks back through loads and field addresses: v == root.f1.f2...
-func pathOf(v ssa.Value) (root ssa.Value, fields []string) {
-	switch x := v.(type) {
-	case *ssa.UnOp:
-		if x.Op == token.MUL {
-			if _, isFA := x.X.(*ssa.FieldAddr); isFA {
-				return pathOf(x.X)
+// pathChain walks back through loads and field addresses: v == root.f1.f2... It returns every
+// (root, fields) decomposition, shortest field path first.
+type pathCand struct {
+	root   ssa.Value
+	fields []string
+}
+
+func pathChain(v ssa.Value) []pathCand {
+	var fields []string
+	var out []pathCand
+	cur := v
+	for {
+		switch x := cur.(type) {
+		case *ssa.UnOp:
+			if x.Op == token.MUL {
+				if fa, isFA := x.X.(*ssa.FieldAddr); isFA {
+					st := fa.X.Type().Underlying().(*types.Pointer).Elem().Underlying().(*types.Struct)
+					fields = append([]string{st.Field(fa.Field).Name()}, fields...)
+					out = append(out, pathCand{fa.X, append([]string(nil), fields...)})
+					cur = fa.X
+					continue
+				}
 			}
+			return out
+		case *ssa.FieldAddr:
+			st := x.X.Type().Underlying().(*types.Pointer).Elem().Underlying().(*types.Struct)
+			fields = append([]string{st.Field(x.Field).Name()}, fields...)
+			out = append(out, pathCand{x.X, append([]string(nil), fields...)})
+			cur = x.X
+			continue
+		case *ssa.MakeInterface:
+			cur = x.X
+			continue
+		case *ssa.ChangeInterface:
+			cur = x.X
+			continue
 		}
-	case *ssa.FieldAddr:
-		r, fs := pathOf(x.X)
-		st := x.X.Type().Underlying().(*types.Pointer).Elem().Underlying().(*types.Struct)
-		return r, append(fs, st.Field(x.Field).Name())
-	case *ssa.MakeInterface:
-		return pathOf(x.X)
-	case *ssa.ChangeInterface:
-		return pathOf(x.X)
+		return out
 	}
-	return v, nil
 }
 
 func cexprPath(e *CExpr) (root string, fields []string) {
@@ -154,23 +174,8 @@ func cexprPath(e *CExpr) (root string, fields []string) {
 
 // monitorFor finds the monitor whose lock (or cond) path matches the SSA value v; returns the object term.
 func (g *vcgen) monitorFor(v ssa.Value, cond bool) (*Monitor, string) {
-	root, fields := pathOf(v)
-	if len(fields) == 0 {
-		return nil, ""
-	}
-	mon := g.monitorOfType(root.Type())
+	mon, root := g.monitorForStatic(v, cond)
 	if mon == nil {
-		return nil, ""
-	}
-	pe := mon.LockPath
-	if cond {
-		pe = mon.CondPath
-	}
-	if pe == nil {
-		return nil, ""
-	}
-	_, want := cexprPath(pe)
-	if strings.Join(want, ".") != strings.Join(fields, ".") {
 		return nil, ""
 	}
 	return mon, g.val(root)
@@ -179,8 +184,7 @@ func (g *vcgen) monitorFor(v ssa.Value, cond bool) (*Monitor, string) {
 // monitorOfCall: the monitor a Lock/Unlock/Wait/Broadcast call operates on (nil if the call is none of these)
 func (g *vcgen) monitorOfCall(c *ssa.CallCommon) *Monitor {
 	if c.IsInvoke() {
-		if typeName(c.Value.Type()) == "sync.Locker" {
-			m, _ := g.monitorForStatic(c.Value, false)
+		if m, _ := g.monitorForStatic(c.Value, false); m != nil && g.monitorOp(m, c.Method.Name()) != "" {
 			return m
 		}
 		return nil
@@ -202,26 +206,40 @@ func (g *vcgen) monitorOfCall(c *ssa.CallCommon) *Monitor {
 
 // monitorForStatic is monitorFor without evaluating the object term (usable before the value is defined)
 func (g *vcgen) monitorForStatic(v ssa.Value, cond bool) (*Monitor, ssa.Value) {
-	root, fields := pathOf(v)
-	if len(fields) == 0 {
-		return nil, nil
+	for _, pc := range pathChain(v) {
+		mon := g.monitorOfType(pc.root.Type())
+		if mon == nil {
+			continue
+		}
+		pe := mon.LockPath
+		if cond {
+			pe = mon.CondPath
+		}
+		if pe == nil {
+			continue
+		}
+		_, want := cexprPath(pe)
+		if strings.Join(want, ".") == strings.Join(pc.fields, ".") {
+			return mon, pc.root
+		}
 	}
-	mon := g.monitorOfType(root.Type())
-	if mon == nil {
-		return nil, nil
+	return nil, nil
+}
+
+// monitorOp classifies an interface method called on a monitor's lock object
+func (g *vcgen) monitorOp(m *Monitor, method string) string {
+	switch method {
+	case "Lock", "RLock":
+		return "lock"
+	case "Unlock", "RUnlock":
+		return "unlock"
 	}
-	pe := mon.LockPath
-	if cond {
-		pe = mon.CondPath
+	for _, w := range m.WaitCalls {
+		if w == method {
+			return "wait"
+		}
 	}
-	if pe == nil {
-		return nil, nil
-	}
-	_, want := cexprPath(pe)
-	if strings.Join(want, ".") != strings.Join(fields, ".") {
-		return nil, nil
-	}
-	return mon, root
+	return ""
 }
 
 func (g *vcgen) monEnv(mon *Monitor, obj string, cur, old *State) *cenv {
@@ -406,7 +424,13 @@ func (g *vcgen) call(v ssa.Value, c *ssa.CallCommon, deferred bool) []string {
 	for _, a := range c.Args {
 		args = append(args, g.val(a))
 	}
-	g.emitEvents(c, args)
+	g.emitEvents(c, args, nil, false)
+	res := g.call2(v, c, args)
+	g.emitEvents(c, args, res, true)
+	return res
+}
+
+func (g *vcgen) call2(v ssa.Value, c *ssa.CallCommon, args []string) []string {
 	if c.IsInvoke() {
 		return g.invoke(v, c, args)
 	}
@@ -998,17 +1022,22 @@ func (g *vcgen) invoke(v ssa.Value, c *ssa.CallCommon, args []string) []string {
 	itype := c.Value.Type()
 	iname := typeName(itype)
 	mname := c.Method.Name()
-	// sync.Locker: monitor operations
-	if iname == "sync.Locker" {
-		if mon, obj := g.monitorFor(c.Value, false); mon != nil {
-			if mname == "Lock" {
-				g.monLock(mon, obj)
-			} else {
-				g.monUnlock(mon, obj, g.callSite("Unlock"))
-			}
-		} else {
-			g.warn("Locker.%s on %s is not a declared monitor", mname, origin(c.Value))
+	// operations on a monitor's lock object (sync.Locker, or a module interface wrapping the lock)
+	if mon, obj := g.monitorFor(c.Value, false); mon != nil {
+		switch g.monitorOp(mon, mname) {
+		case "lock":
+			g.monLock(mon, obj)
+			return g.freshResults(c.Signature())
+		case "unlock":
+			g.monUnlock(mon, obj, g.callSite("Unlock"))
+			return g.freshResults(c.Signature())
+		case "wait":
+			g.monUnlock(mon, obj, g.callSite(mname))
+			g.monLock(mon, obj)
+			return g.freshResults(c.Signature())
 		}
+	} else if iname == "sync.Locker" {
+		g.warn("Locker.%s on %s is not a declared monitor", mname, origin(c.Value))
 		return nil
 	}
 	if g.safety {
@@ -1391,8 +1420,15 @@ func (e *Engine) eventsFor(c *ssa.CallCommon) []*EventDecl {
 	return out
 }
 
-func (g *vcgen) emitEvents(c *ssa.CallCommon, args []string) {
+func (g *vcgen) emitEvents(c *ssa.CallCommon, args []string, results []string, ret bool) {
 	for _, ev := range g.eng.eventsFor(c) {
+		if ev.Ret != ret {
+			continue
+		}
+		if ret && len(results) > 0 {
+			rn := "G.ret." + ev.Name
+			g.stateVar(rn, g.s.sortOf(c.Signature().Results().At(0).Type()))
+		}
 		cond := "true"
 		if ev.When != nil {
 			vars := map[string]cval{}
@@ -1405,6 +1441,10 @@ func (g *vcgen) emitEvents(c *ssa.CallCommon, args []string) {
 			}
 			for i, a := range all {
 				vars[fmt.Sprintf("a%d", i)] = cval{term: a, typ: vals[i].Type(), sort: g.s.sortOf(vals[i].Type())}
+			}
+			for i, r := range results {
+				rt := c.Signature().Results().At(i).Type()
+				vars[fmt.Sprintf("r%d", i)] = cval{term: r, typ: rt, sort: g.s.sortOf(rt)}
 			}
 			var pkg *types.Package
 			if p, ok := g.eng.AllPkgs[ev.Pkg]; ok {
@@ -1428,6 +1468,10 @@ func (g *vcgen) emitEvents(c *ssa.CallCommon, args []string) {
 		g.set("G.cnt."+ev.Name, fmt.Sprintf("(ite %s (+ %s 1) %s)", cond, cnt, cnt))
 		g.set("G.first."+ev.Name, fmt.Sprintf("(ite (and %s (= %s 0)) %s %s)", cond, cnt, nn, first))
 		g.set("G.last."+ev.Name, fmt.Sprintf("(ite %s %s %s)", cond, nn, last))
+		if ret && len(results) > 0 {
+			rn := "G.ret." + ev.Name
+			g.set(rn, fmt.Sprintf("(ite %s %s %s)", cond, results[0], g.get(g.st, rn)))
+		}
 	}
 }
 
